@@ -20,3 +20,12 @@ mk cliekusrv "client one" digitalSignature serverAuth ""
 mk srvkubad-sign "server.sim sign" keyEncipherment serverAuth,clientAuth server.sim
 mk srvkubad-enc  "server.sim enc"  digitalSignature serverAuth,clientAuth server.sim
 for c in srvekucli-sign srvekucli-enc cliekusrv srvkubad-sign srvkubad-enc; do openssl verify $V -CAfile caA.cert.pem $c.cert.pem; done
+# second TLS identity (RSA root) for name-based certificate selection
+if [ ! -f tlsrsa2.cert.pem ]; then
+  openssl genpkey -algorithm RSA -pkeyopt rsa_keygen_bits:2048 -out tlsrsa2.key.pem 2>/dev/null
+  { echo "basicConstraints=critical,CA:FALSE"; echo "keyUsage=critical,digitalSignature,keyEncipherment"; echo "extendedKeyUsage=serverAuth,clientAuth"; echo "subjectKeyIdentifier=hash"; echo "authorityKeyIdentifier=keyid"; echo "subjectAltName=DNS:server2.sim"; } > t.ext
+  openssl req -new -key tlsrsa2.key.pem -subj "/C=CN/O=verifsim/CN=server2.sim" -out t.csr -sha256
+  openssl x509 -req -in t.csr -CA rsaCA.cert.pem -CAkey rsaCA.key.pem -out tlsrsa2.cert.pem -extfile t.ext -not_before $VB -not_after $VA -sha256 -set_serial 9090 2>/dev/null
+  rm -f t.csr t.ext
+  openssl verify -CAfile rsaCA.cert.pem tlsrsa2.cert.pem
+fi
